@@ -248,14 +248,14 @@ theorem Src_valid_host_address (subnets : List Nat) (ys yh : Y) :
     | _ => simp [Y.exactInt?]
   | _ => simp [Y.exactInt?]
 
-theorem any_congr' {α : Type} (l : List α) (p q : α → Bool) (h : ∀ x ∈ l, p x = q x) : l.any p = l.any q := by
+theorem any_congr_mem {α : Type} (l : List α) (p q : α → Bool) (h : ∀ x ∈ l, p x = q x) : l.any p = l.any q := by
   induction l with
   | nil => rfl
   | cons x xs ih =>
     simp only [List.any_cons]
     rw [h x (List.mem_cons_self ..), ih (fun y hy => h y (List.mem_cons_of_mem _ hy))]
 
-theorem all_congr' {α : Type} (l : List α) (p q : α → Bool) (h : ∀ x ∈ l, p x = q x) : l.all p = l.all q := by
+theorem all_congr_mem {α : Type} (l : List α) (p q : α → Bool) (h : ∀ x ∈ l, p x = q x) : l.all p = l.all q := by
   induction l with
   | nil => rfl
   | cons x xs ih =>
@@ -301,7 +301,7 @@ theorem pyIn_scalar (s : Y) (l : List Y) (h : pyIn s l = true) : s.isScalar = tr
 def dupPair (k : Nat) (l : List Y) : Bool :=
   ((List.range' k l.length).zip l).any fun p => ((List.range' k l.length).zip l).any fun q => p.1 != q.1 && p.2.pyEq q.2
 
-theorem range'_zip_ge (k n : Nat) (l : List Y) (p : Nat × Y) (h : p ∈ (List.range' (k + 1) n).zip l) : p.1 ≠ k := by
+theorem rangeZip_ge (k n : Nat) (l : List Y) (p : Nat × Y) (h : p ∈ (List.range' (k + 1) n).zip l) : p.1 ≠ k := by
   have := (List.of_mem_zip h).1
   rw [List.mem_range'_1] at this
   omega
@@ -315,23 +315,23 @@ theorem dupPair_eq (k : Nat) (l : List Y) : dupPair k l = !noDupY l := by
       Bool.false_and, Bool.false_or]
     have hrest : ∀ p ∈ (List.range' (k + 1) t.length).zip t, (k != p.1) = true := by
       intro p hp
-      have := range'_zip_ge k t.length t p hp
+      have := rangeZip_ge k t.length t p hp
       simp [bne_iff_ne, Ne.symm this]
     have hrest' : ∀ p ∈ (List.range' (k + 1) t.length).zip t, (p.1 != k) = true := by
       intro p hp
-      have := range'_zip_ge k t.length t p hp
+      have := rangeZip_ge k t.length t p hp
       simp [bne_iff_ne, this]
     have h1 : ((List.range' (k + 1) t.length).zip t).any (fun q => k != q.1 && a.pyEq q.2) = pyIn a t := by
-      rw [any_congr' _ _ (fun q => a.pyEq q.2) (fun q hq => by simp [hrest q hq])]
+      rw [any_congr_mem _ _ (fun q => a.pyEq q.2) (fun q hq => by simp [hrest q hq])]
       exact any_snd_zip (k + 1) t (fun y => a.pyEq y)
     have h2 : ((List.range' (k + 1) t.length).zip t).any (fun p =>
         (p.1 != k && p.2.pyEq a) || ((List.range' (k + 1) t.length).zip t).any fun q => p.1 != q.1 && p.2.pyEq q.2) =
         (pyIn a t || dupPair (k + 1) t) := by
-      rw [any_congr' _ _ (fun p => p.2.pyEq a || ((List.range' (k + 1) t.length).zip t).any fun q => p.1 != q.1 && p.2.pyEq q.2)
+      rw [any_congr_mem _ _ (fun p => p.2.pyEq a || ((List.range' (k + 1) t.length).zip t).any fun q => p.1 != q.1 && p.2.pyEq q.2)
         (fun p hp => by simp [hrest' p hp])]
       rw [any_or_split]
       congr 1
-      rw [any_congr' _ _ (fun p => a.pyEq p.2) (fun p _ => pyEq_symm p.2 a)]
+      rw [any_congr_mem _ _ (fun p => a.pyEq p.2) (fun p _ => pyEq_symm p.2 a)]
       exact any_snd_zip (k + 1) t (fun y => a.pyEq y)
     rw [h1, h2, ih (k + 1)]
     cases pyIn a t <;> cases noDupY t <;> rfl
@@ -344,7 +344,7 @@ theorem Src_fw_setting (services : List Y) (f : Y) :
   | list l =>
     simp only [Y.isList, Bool.not_true, Bool.false_eq_true, if_false, listOf]
     have ha : l.all (fun s => s.isScalar && pyIn s services) = l.all (fun s => pyIn s services) := by
-      apply all_congr'
+      apply all_congr_mem
       intro s _
       cases h : pyIn s services
       · simp
